@@ -10,6 +10,7 @@ CONSTANTS
   FullLevels = {}
   MedLevels = {2,3}
   TinyLevels = {1}
+  AliasLevels = {}
   XOffs = {}
   XLens = {}
   MaxLen = 70
